@@ -3,7 +3,7 @@ from __future__ import annotations
 
 from typing import Any, Dict, List, Optional, Tuple
 
-from ..kit import Ctx, calls, calls_target, kw, loops, nf_cmp, normal_paths, poly_of, rule, short, stores
+from ..kit import caller_ok, Ctx, calls, calls_target, kw, loops, nf_cmp, normal_paths, poly_of, rule, short, stores
 from ..paths import Event, Path
 from ..terms import NONE, Term, Unrecognised, diff_const, key, strip_ver, subterms
 from .c04 import writer_allowlist
@@ -41,11 +41,11 @@ def r1(ctx: Ctx) -> None:
     sites = ctx.cg.sites_calling(UT)
     ctx.require(len(sites) >= 1, f"no caller of {UT}")
     for s in sites:
-        ctx.check(s.caller.qualname == UTM, s.caller, s.node, f"caller of {UT}", UTM, s.caller.qualname)
+        ctx.check(caller_ok(ctx, s.caller, lambda g: g.qualname == UTM), s.caller, s.node, f"caller of {UT}", UTM, s.caller.qualname)
     for s in ctx.cg.sites_calling("Market._set_time"):
         ctx.violated(s.caller, s.node, "absolute clock setter is not used by the platform", "no caller of Market._set_time in pams", s.caller.qualname)
     for s in ctx.cg.sites_calling(UTM):
-        ctx.check(s.caller.qualname == UTS, s.caller, s.node, f"caller of {UTM}", UTS, s.caller.qualname)
+        ctx.check(caller_ok(ctx, s.caller, lambda g: g.qualname == UTS), s.caller, s.node, f"caller of {UTM}", UTS, s.caller.qualname)
     for s in ctx.cg.sites_calling("OrderBook._update_time"):
         ctx.violated(s.caller, s.node, "book-local clock stepping is not used (books follow the market clock)", "no caller of OrderBook._update_time", s.caller.qualname)
 
@@ -125,7 +125,7 @@ def r2(ctx: Ctx) -> None:
 def r3(ctx: Ctx) -> None:
     RUN, IT = "SequentialRunner._run", "SequentialRunner._iterate_market_updates"
     for s in ctx.cg.sites_calling(UTS):
-        ctx.check(s.caller.qualname in (RUN, IT), s.caller, s.node, f"caller of {UTS}", f"{RUN} | {IT}", s.caller.qualname)
+        ctx.check(caller_ok(ctx, s.caller, lambda g: g.qualname in (RUN, IT)), s.caller, s.node, f"caller of {UTS}", f"{RUN} | {IT}", s.caller.qualname)
     f = ctx.func(RUN)
     for p in normal_paths(ctx.paths(RUN)):
         top = [e for e in p.events if e.kind == "call" and calls_target(e, UTS)]
